@@ -81,7 +81,7 @@ def run(tier):
             ck.violation("FiberWrappingChangesBehaviour", {"source": meta[cid][0], "what": "body moved into a fiber prints differently",
                                                            "expected": a, "observed": b})
     return ck.finish("programs from the fibers profile against the coroutine model (oracle A) and programs of the "
-                     "control-flow / class profiles run plain and moved into a fiber (oracle B); non-trivial = distinct "
+                     "control-flow / class profiles run plain and moved into a fiber (oracle B); fibers handing out accessors to their locals in every capture order, abandoned or resumed later; non-trivial = distinct "
                      "program creating a fiber that printed at least three lines")
 
 
